@@ -24,6 +24,9 @@ PARTIAL = [
     "modelled exactly (round-to-nearest-even 24-bit product, then truncation) and compared on every circuit case.",
 ]
 ASSUMPTIONS = [
+    "fromIspdCircuit fallback (fix 9a57cdd): when the side margin removes every row the grid is built from the free rows without "
+    "margin, and from the circuit's whole placement area when no free row exists; in these cases (counted: grid_fallback_*) "
+    "'free row area after the side margin' is read as that documented fallback region, by the model and by the oracle",
     "C++ int/long long modelled as unbounded Int (generator keeps i*(max-min) of computeSubdivisions and all areas far below 2^31 / 2^63; UBSan is on)",
     "sideMargin >= 0 (not validated by RoughLegalizationParameters::check; a negative margin makes clipped rows overlap, outside 'free row area')",
     "binSize >= 1 after truncation (check() demands binSize >= 1.0 and there is a cell of positive height); |minCellHeight| < 2^24 so int->float is exact",
